@@ -36,6 +36,7 @@ pub fn run_line(line: &str, out: &mut String) {
     let subs: Vec<Arc<Mutex<Subscriber<Val>>>> = (0..nsubs).map(|_| Arc::new(Mutex::new(ob.subscribe()))).collect();
     let barrier = Arc::new(AtomicUsize::new(0));
     let records: Arc<Mutex<Vec<String>>> = Arc::new(Mutex::new(vec![]));
+    let created: Arc<Mutex<Vec<(u32, eyeball::Subscriber<Val>)>>> = Arc::new(Mutex::new(vec![]));
     let guard_bad = Arc::new(AtomicUsize::new(0));
     let mut handles = vec![];
     for (t, prog) in programs.into_iter().enumerate() {
@@ -43,6 +44,7 @@ pub fn run_line(line: &str, out: &mut String) {
         let subs = subs.clone();
         let barrier = barrier.clone();
         let records = records.clone();
+        let created = created.clone();
         let guard_bad = guard_bad.clone();
         handles.push(std::thread::spawn(move || {
             let cw = Arc::new(CountWaker(AtomicUsize::new(0)));
@@ -53,9 +55,37 @@ pub fn run_line(line: &str, out: &mut String) {
                 std::hint::spin_loop();
             }
             let mut local = vec![];
+            // subscribers created by this thread while the others are running: handle id = t*10 + j
+            let mut mysubs: Vec<(u32, eyeball::Subscriber<Val>)> = vec![];
             for (i, op) in prog.iter().enumerate() {
+                // calls on a subscriber this thread has not created (yet) are left out of the history
+                if (op.starts_with("lpoll(") || op.starts_with("lnext_now("))
+                    && !mysubs.iter().any(|(h, _)| *h == arg(op))
+                {
+                    continue;
+                }
+                let mut op_text = op.to_string();
                 let inv = stamp();
-                let res: String = if op.starts_with("set(") {
+                let res: String = if op == "subscribe" {
+                    let h = t as u32 * 10 + mysubs.len() as u32;
+                    let s = ob.subscribe();
+                    mysubs.push((h, s));
+                    op_text = format!("subscribe({h})");
+                    "()".into()
+                } else if op.starts_with("lnext_now(") {
+                    let h = arg(op);
+                    let s = &mut mysubs.iter_mut().find(|(x, _)| *x == h).unwrap().1;
+                    format!("={}", show(s.next_now()))
+                } else if op.starts_with("lpoll(") {
+                    let h = arg(op);
+                    let s = &mut mysubs.iter_mut().find(|(x, _)| *x == h).unwrap().1;
+                    let mut cx = Context::from_waker(&waker);
+                    match Pin::new(s).poll_next(&mut cx) {
+                        Poll::Ready(Some(v)) => format!("R:{}", show(v)),
+                        Poll::Ready(None) => "N".into(),
+                        Poll::Pending => "P".into(),
+                    }
+                } else if op.starts_with("set(") {
                     format!("={}", show(ob.set(val(arg(op)))))
                 } else if op.starts_with("update(") {
                     let v = arg(op);
@@ -140,9 +170,10 @@ pub fn run_line(line: &str, out: &mut String) {
                     panic!("bad op {op}")
                 };
                 let resp = stamp();
-                local.push(format!("{t}.{i}:{op}>{res}@{inv}-{resp}"));
+                local.push(format!("{t}.{i}:{op_text}>{res}@{inv}-{resp}"));
             }
             records.lock().unwrap().extend(local);
+            created.lock().unwrap().extend(mysubs);
         }));
     }
     for h in handles {
@@ -165,6 +196,20 @@ pub fn run_line(line: &str, out: &mut String) {
         };
         let resp = stamp();
         finals.push(format!("F.{k}:poll({k})>{r}@{inv}-{resp}"));
+    }
+    // ... and so is every subscriber created during the run
+    let mut made = std::mem::take(&mut *created.lock().unwrap());
+    made.sort_by_key(|(h, _)| *h);
+    for (h, s) in made.iter_mut() {
+        let inv = stamp();
+        let mut cx = Context::from_waker(&waker);
+        let r = match Pin::new(s).poll_next(&mut cx) {
+            Poll::Ready(Some(v)) => format!("R:{}", show(v)),
+            Poll::Ready(None) => "N".into(),
+            Poll::Pending => "P".into(),
+        };
+        let resp = stamp();
+        finals.push(format!("F.s{h}:lpoll({h})>{r}@{inv}-{resp}"));
     }
     records.lock().unwrap().extend(finals);
     let subfin: Vec<String> = subs.iter().map(|s| show(s.lock().unwrap().next_now()).to_string()).collect();
